@@ -66,9 +66,10 @@ int Logger::operator()()
 		LogElement *msg_ptr(0);
 
 #if (FIX8_MPMC_SYSTEM == FIX8_MPMC_FF)
+		const bool stopping(_stopping);	// sampled before the queue is polled
 		if (!_msg_queue.try_pop(msg_ptr))
 		{
-			if (_stopping)	// queue drained
+			if (stopping)	// queue drained
 				break;
 			hypersleep<h_microseconds>(200);
 			continue;
